@@ -3,8 +3,8 @@ CONSTANTS Devs = @DEVS@
           Follow = @FOLLOW@
           InitSizes = {0, 1, 2, 3, 5, 8}
           Roots = {"pb", "tree"}
-          WLens = {0, 1, 2, 4}
-          Ks = {0, 1, 3, 9}
+          WLens = {0, 1, 3}
+          Ks = {0, 2, 9}
           Slack = 2
           D = 2
           E = 2
